@@ -265,4 +265,92 @@ CHILD = Harness(
     stubs=STUBS_COMMON,
 )
 
-HARNESSES = [H, CHILD]
+# ------------------------------------------------------------------------------ L-pending
+def pending_params(tier):
+    return [P("variant", 0, 1), P("fsteps", 1, 3)] + [P(f"s{i}", 0, 3) for i in range(4 if tier == "quick" else 6)]
+
+
+@guard
+def pending_fn(a, tier):
+    from .common import Tape
+    from symkit.choose import is_concrete, resumed
+
+    S = 4 if tier == "quick" else 6
+    variant = pick(a["variant"], 2)
+    f = a["fsteps"]
+    if not is_concrete(f):
+        with resumed():
+            f = f - 1
+    else:
+        f = f - 1
+    fsteps = 1 + pick(f, 3)
+    tape = Tape([a[f"s{i}"] for i in range(S)])
+    made = []
+    got = {}
+
+    async def factory():
+        made.append(1)
+        for _ in range(fsteps):
+            await anyio.sleep(0)
+        return object()
+
+    async def main():
+        async with anyio.create_task_group() as tg:
+            async with Context() as ctx:
+                ctx.add_resource_factory(factory, "slow", types=[T1])
+
+                begun = anyio.Event()
+
+                async def ask(tag):
+                    try:
+                        begun.set()
+                        got[tag] = await ctx.get_resource(T1, "slow")
+                    except BaseException as e:  # noqa
+                        got[tag] = e
+
+                if variant == 0:
+                    # both lookups are made concurrently from inside a teardown callback
+                    async def during_teardown():
+                        async with anyio.create_task_group() as inner:
+                            inner.start_soon(ask, "first")
+                            inner.start_soon(ask, "second")
+
+                    ctx.add_teardown_callback(during_teardown)
+                else:
+                    # the first lookup starts while the context is open (in another task), the second one is made
+                    # from a teardown callback and has to wait for the first one's generation
+                    tg.start_soon(ask, "first")
+                    await begun.wait()  # the first lookup has really started (its generation is in flight or done)
+
+                    async def during_teardown():
+                        await ask("second")
+
+                    ctx.add_teardown_callback(during_teardown)
+
+    _, exc, _k = run(main, chooser=tape)
+    summary = {"variant": ["two concurrent lookups inside a teardown callback", "one lookup started while open, one made during teardown"][variant],
+               "factory_checkpoints": fsteps, "schedule": tape.taken}
+    if exc is not None:
+        return FAIL(f"pending:raised:{type(exc).__name__}", repr(exc), summary)
+    for tag in ("first", "second"):
+        if isinstance(got.get(tag), BaseException) or got.get(tag) is None:
+            return FAIL(f"pending:get_resource-refused-during-teardown:{type(got.get(tag)).__name__}", f"{tag}: {got.get(tag)!r}", summary)
+    if got["first"] is not got["second"] or len(made) != 1:
+        return FAIL("pending:different-objects", f"{got} made={len(made)}", summary)
+    return OK(summary, True)
+
+
+PENDING = Harness(
+    prop="C13",
+    name="L-pending",
+    fn=pending_fn,
+    params=pending_params,
+    cube=lambda tier: 1,
+    title="get_resource() calls that overlap an in-flight async generation while the context is being torn down",
+    bound_text=lambda tier: f"async factory awaiting 1-3 checkpoints; two overlapping lookups, both (or the second) made during teardown; first {4 if tier == 'quick' else 6} scheduling decisions arbitrary",
+    oracle="both lookups are accepted (teardown has not finished) and return the one generated object",
+    outside="-",
+    stubs=STUBS_COMMON,
+)
+
+HARNESSES = [H, CHILD, PENDING]
